@@ -61,6 +61,12 @@ def run(tier):
     cfg = open(os.path.join(vlib.SPEC, "KeepAlive.cfg")).read().replace("MaxLen = 4", "MaxLen = %d" % maxlen)
     r = vlib.tlc_ok(vlib.tlc("KeepAlive", cfg="KA.cfg", files={"KA.cfg": cfg}, workers=4, timeout=600), "KeepAlive model")
     table = vlib.ndjson_read(os.path.join(r.dir, "keepalive_table.ndjson"))
+    # concurrent pings (keep-alive loop + application): FIFO waiter queue; the single-slot design (finding F18) is refuted
+    rp = vlib.tlc_ok(vlib.tlc("Pings", cfg="Pings.cfg", workers=2, timeout=300), "Pings model")
+    cfgb = open(os.path.join(vlib.SPEC, "Pings.cfg")).read().replace("BugSingleSlot = FALSE", "BugSingleSlot = TRUE")
+    rpb = vlib.tlc("Pings", cfg="PB.cfg", files={"PB.cfg": cfgb}, workers=1, timeout=300)
+    if rpb.violated != "EveryPingAnswered":
+        raise vlib.Infra("non-vacuity: Pings with a single waiter slot not refuted (%s)" % rpb.violated)
     # real KeepAlive against every script
     scs = [{"id": "s%d" % i, "s": row["s"]} for i, row in enumerate(table)]
     exp = {"s%d" % i: row for i, row in enumerate(table)}
@@ -119,7 +125,7 @@ def run(tier):
     rc = verd.finish()
     nontriv = len({tuple(e["s"]) for e in table if any(x != "ok" for x in e["s"])})
     vlib.write_evidence(PID, tier, "model_checking", {
-        "states": r.states + totals["states"], "transitions": r.generated + totals["states"],
+        "states": r.states + rp.states + totals["states"], "transitions": r.generated + rp.generated + totals["states"],
         "traces_validated_against_impl": nval, "keepalive_scripts_run_on_real_code": len(got), "script_mismatches": mism,
         "evaluations": len(got) + len(rec), "distinct_nontrivial": nontriv + len(rec),
         "rule": "all ping-outcome scripts of length <= %d over 5 letters (non-trivial: contains a non-ok outcome) on the real KeepAlive; reconnecting client with swallowed PINGREQs on first / re-established connections and healthy runs" % maxlen,
